@@ -58,6 +58,7 @@ struct World {
   std::vector<Ev> deferred;              // events for blocked nodes
   std::vector<std::function<void()>> pollers;    // raw peers drain their sockets here
   std::vector<std::function<void(const WireEv &)>> taps;
+  std::vector<std::function<void(int stream_id, int side, const Bytes &)>> stream_taps;   // every write on a simulated TCP stream
 
   // network policy
   int64_t base_latency_us = 1000;
